@@ -18,11 +18,36 @@ TAGS = "ifsbhtdScrmTFNI"
 
 def consumer_table(unit_c):
     from . import codec_tables as T
-    tab, dflt, sw, cur, fn = T.loop_switch_summaries(unit_c, "rtosc_amessage")
     out = {}
-    for t in TAGS:
-        S = tab.get(t, dflt)
-        out[t] = (S.counters if S is not None else {}).get("argidx", 0)
+    try:
+        tab, dflt, sw, cur, fn = T.loop_switch_summaries(unit_c, "rtosc_amessage")
+        for t in TAGS:
+            S = tab.get(t, dflt)
+            out[t] = (S.counters if S is not None else {}).get("argidx", 0)
+    except AnalysisBroken:
+        # not a tag switch in a loop: the writer is evaluated on `<tag>i` with two distinguishable argument slots; the
+        # bytes it emits for the trailing `i` tell whether the tag in front consumed a slot
+        from . import oscref as O
+        X, Y = 0x0a0b0c0d, 0x01020304
+        for t in TAGS:
+            res = None
+            for first in ("abc", (2, [7, 7]), [1, 2, 3, 4], X):
+                try:
+                    r, m = O.run_builder(unit_c, "rtosc_amessage", "/a", t + "i", [first, Y])
+                except FD.Unknown as e:
+                    if "union member" in str(e) or "read outside" in str(e):
+                        continue
+                    raise AnalysisBroken("ARG-SLOTS: rtosc_amessage not evaluable on `%si`: %s" % (t, e))
+                tail = m.written(r)[-4:]
+                if tail == bytes([1, 2, 3, 4]):
+                    res = 1
+                    break
+                if first == X and tail == bytes([0x0a, 0x0b, 0x0c, 0x0d]):
+                    res = 0
+                    break
+            if res is None:
+                raise AnalysisBroken("ARG-SLOTS: slot consumption of tag '%s' in rtosc_amessage not decided by evaluation" % t)
+            out[t] = res
     if not any(out.values()) or all(out.values()):
         raise AnalysisBroken("ARG-SLOTS: rtosc_amessage's argument index discipline not recognised: %s" % out)
     return out
